@@ -29,9 +29,9 @@ Qed.
 Lemma bb_value_and_positive y : -1 < y < 1 -> nth 0 (bbfd y) 0 = bbf y /\ 0 < nth 1 (bbfd y) 0.
 Proof.
   intros [H1 H2]. unfold bbfd, bbf, bb_fd, bb_f. cbv zeta.
-  destruct (Rlt_dec (Rabs y) _) as [Hs|Hb]; [|destruct (Rlt_dec 0 y)]; cbv iota beta; cbn [nth]; (split; [reflexivity|]).
+  destruct (Rlt_dec (Rabs y) _) as [Hs|Hb]; [|destruct (Rlt_dec 0 y)]; cbv iota beta; cbn [nth]; (split; [first [reflexivity | ring | (field; ad_side)]|]).
   - apply Rabs_def2 in Hs. destruct Hs. interval.
-  - assert (0 < 1 / (1 - y)) by (apply Rdiv_lt_0_compat; lra). nra.
-  - assert (1 / (-1 - y) < 0) by (apply Ropp_lt_cancel; replace (- (1 / (-1 - y))) with (1 / (1 + y)) by (field; ad_side); rewrite Ropp_0; apply Rdiv_lt_0_compat; lra). nra.
+  - assert (0 < 1 / (1 - y)) by (apply Rdiv_lt_0_compat; lra). first [nra | (apply Rdiv_lt_0_compat; nra)].
+  - assert (1 / (-1 - y) < 0) by (apply Ropp_lt_cancel; replace (- (1 / (-1 - y))) with (1 / (1 + y)) by (field; ad_side); rewrite Ropp_0; apply Rdiv_lt_0_compat; lra). first [nra | (apply Rdiv_lt_0_compat; nra)].
 Qed.
 
